@@ -4,6 +4,7 @@
 mod bigmodels;
 mod bridge;
 mod cachemc;
+mod cli;
 mod formulas;
 mod jobs;
 mod nets;
@@ -39,6 +40,9 @@ pub fn generic_replay(case: &Value) -> Option<String> {
         Some("rewrite") => props::c08::replay(case),
         Some("subst") => props::c10::replay(case),
         Some("law") => props::c11::replay(case),
+        Some("archive") => props::c16::replay(case),
+        Some("cli") => props::c17::replay(case),
+        Some("convert") => props::c19::replay(case),
         Some("sanitize") => props::c15::replay(case),
         Some("unsafe_ex") => props::c18::replay(case),
         Some("colour") | Some("c20big") => props::c20::replay(case),
@@ -129,7 +133,10 @@ fn main() {
         "C11" => props::c11::run(tier),
         "C12" => props::c12::run(tier),
         "C15" => props::c15::run(tier),
+        "C16" => props::c16::run(tier),
+        "C17" => props::c17::run(tier),
         "C18" => props::c18::run(tier),
+        "C19" => props::c19::run(tier),
         "C20" => props::c20::run(tier),
         "C13" => props::c13::run(tier),
         "C14" => props::c14::run(tier),
